@@ -81,8 +81,7 @@ def contains(st: St, c: SV, x: SV):
         if c.kind == "values":
             xt = key_term(cell.vty, x)
             if xt is None: return z3.BoolVal(False)
-            k = z3.Const("k!in", S.sort_of(cell.kty))
-            return z3.Exists([k], z3.And(cell.dom[k], cell.val[k] == xt))
+            return vals_mem(cell.kty, cell.vty, cell.dom, cell.val)[xt]
     if isinstance(c, SRef):
         cell = st.cell(c.ref)
         if isinstance(cell, DictCell):
@@ -200,6 +199,31 @@ def set_eq(ma, mb):
     return ma == mb
 
 
+_keyof = {}
+
+
+def vals_mem(kty, vty, dom, val):
+    """Membership array of the set of values of the dict (dom, val), without an existential:
+         x in vals  :=  dom[ko(x)] and val[ko(x)] == x
+    where ko is a choice function of this dict (a fresh function symbol per (dom, val) term pair) with the axiom
+         forall k. dom[k] => dom[ko(val[k])] and val[ko(val[k])] == val[k]
+    (satisfiable for every dict: pick ko(x) = some key that maps to x).  Ground witnesses instead of nested
+    quantifiers keep the VCs inside what E-matching decides reliably."""
+    ks, vs = S.sort_of(kty), S.sort_of(vty)
+    key = (dom.get_id(), val.get_id())
+    if key not in _keyof:
+        name = f"keyof!{len(_keyof)}"
+        F = z3.Function(name, vs, ks)
+        k = z3.Const("k!ko", ks)
+        ax = z3.ForAll([k], z3.Implies(dom[k], z3.And(dom[F(val[k])], val[F(val[k])] == val[k])),
+                       patterns=[val[k], dom[k]])
+        S.LIFTED[name] = ax
+        _keyof[key] = (F, dom, val)       # keep the terms alive (ids are only unique among live ASTs)
+    F = _keyof[key][0]
+    x = z3.Const("x!v", vs)
+    return z3.Lambda([x], z3.And(dom[F(x)], val[F(x)] == x))
+
+
 def as_dictv(st, v):
     if isinstance(v, SDictV): return v
     if isinstance(v, SRef) and isinstance(st.cell(v.ref), DictCell):
@@ -224,6 +248,27 @@ def data_field(v: SPrim, name: str) -> SV:
     raise KeyError(name)
 
 
+def seq_setview_facts(st: St, sq: SSeq) -> St:
+    """A sequence that enumerates a set (sq.setview) without repetition of membership facts: every element is in
+    the set, and every member of the set occurs at some position pos(x) (a fresh function)."""
+    if getattr(sq, "setview", None) is None: return st
+    es = S.sort_of(sq.elem)
+    S._ctr[0] += 1
+    pos = z3.Function(f"pos!{S._ctr[0]}", es, z3.IntSort())
+    j = z3.Int("j!sv"); x = z3.Const("x!sv", es)
+    def q(vs, body, pats):
+        pats = [p for p in pats if not (z3.is_app(p) and p.num_args() > 0 and _is_lambda(p.arg(0)))]
+        try:
+            return z3.ForAll(vs, body, patterns=pats) if pats else z3.ForAll(vs, body)
+        except z3.Z3Exception:
+            return z3.ForAll(vs, body)
+    elem_at = z3.simplify(sq.arr[j])
+    st = st.fact(q([j], z3.Implies(z3.And(j >= 0, j < sq.n), sq.setview[elem_at]), [sq.arr[j]]))
+    st = st.fact(q([x], z3.Implies(sq.setview[x], z3.And(pos(x) >= 0, pos(x) < sq.n, sq.arr[pos(x)] == x)),
+                   [pos(x), sq.setview[x]]))
+    return st
+
+
 def seq_map(src: SSeq, elem_ty, f) -> SSeq:
     """[f(x) for x in src] as a normalised lambda array; f maps a z3 term to a z3 term."""
     i = z3.Int("i!map")
@@ -237,7 +282,11 @@ def seq_concat(a: SSeq, b: SSeq) -> SSeq:
     es = S.sort_of(a.elem)
     arr = z3.Lambda([i], z3.If(z3.And(i >= 0, i < a.n), a.arr[i],
                                z3.If(z3.And(i >= a.n, i < a.n + b.n), b.arr[i - a.n], S.dflt(es))))
-    return SSeq(a.elem, a.n + b.n, arr)
+    sv = None
+    if getattr(a, "setview", None) is not None and getattr(b, "setview", None) is not None:
+        x = z3.Const("x!cat", es)
+        sv = z3.Lambda([x], z3.Or(a.setview[x], b.setview[x]))
+    return SSeq(a.elem, a.n + b.n, arr, setview=sv)
 
 
 def seq_append(a: SSeq, x) -> SSeq:
